@@ -1,6 +1,7 @@
 import Driver.Proto
 import MesonModel.Ninja.Manifest
 import MesonModel.Graph.Model
+import MesonModel.Graph.HeaderDeps
 /-
 driver commands of area `graph` (C05)
 
@@ -10,6 +11,15 @@ driver commands of area `graph` (C05)
             schedule: valid and complete for the graph restricted to the included steps>
       -> ERR:Parse:<kind>:<chars-left> / ERR:Load:<kind>:<arg>   (the C04 manifest model rejects the text)
   valid <n>|<edges: ins>outs;…  with paths as numbers, `,`-joined>|<schedule>     -> 0/1   (abstract graphs, for tests)
+
+  hdeps <dependency records>|<target records>
+      records `;`-joined, fields of a record `:`-joined, numbers blank separated, strings as code points
+        generated element   C!<dir>!<out>~<out>…  (whole custom target) | I!<dir>!<out>  (ct[i]) | L!<out>~<out>…  (generator list)
+                            with <out> = <name>^<class digit: 0 source 1 object 2 library 3 header 4 other>; elements `,`-joined
+        dependency          <sources>:<dependencies>:<link_with>:<link_whole>
+        target              <kind digit: 0 executable 1 static 2 shared 3 other>:<private dir>:<sources>:<dependencies>:<link_with>:<link_whole>
+      -> OK|wf=<0/1>|<order-only inputs of target 0, `,`-joined strings>;<… of target 1>;…
+      -> ERR:Table   (a record does not have the shape above)
 
 Step i is the i-th `build` statement of the file (0-based); its declared inputs are explicit ++ implicit ++ order-only
 inputs, its outputs explicit ++ implicit outputs (validations `|@` are not dependencies).
@@ -72,8 +82,67 @@ def absGraph (edges : String) : Graph Nat Nat Unit :=
       | some (is, os) => { ins := is, outs := os }
       | none => { ins := [], outs := [] } }
 
+/-! ### target tables (order-only derivation) -/
+
+namespace HD
+open MesonModel.Graph.HeaderDeps
+
+def clsOf : String → Option Cls
+  | "0" => some .source | "1" => some .object | "2" => some .library | "3" => some .header | "4" => some .other
+  | _ => none
+
+def kindOf : String → Option Kind
+  | "0" => some .executable | "1" => some .static | "2" => some .shared | "3" => some .other
+  | _ => none
+
+def outOf (f : String) : Option Out :=
+  match f.splitOn "^" with
+  | [n, c] => (clsOf c.trimAscii.toString).map (fun k => ⟨decodeStr n, k⟩)
+  | _ => none
+
+def outsOf (f : String) : Option (List Out) :=
+  if f.trimAscii.isEmpty then some [] else (f.splitOn "~").mapM outOf
+
+def genOf (f : String) : Option Gen :=
+  match f.splitOn "!" with
+  | ["C", d, os] => (outsOf os).map (fun l => Gen.ct (decodeStr d) l)
+  | ["I", d, o] => (outOf o).map (fun x => Gen.cti (decodeStr d) x)
+  | ["L", os] => (outsOf os).map (fun l => Gen.glist l)
+  | _ => none
+
+def gensOf (f : String) : Option (List Gen) :=
+  if f.trimAscii.isEmpty then some [] else (f.splitOn ",").mapM genOf
+
+def depOf (f : String) : Option Dep :=
+  match f.splitOn ":" with
+  | [s, d, l, w] => (gensOf s).map (fun gs => { sources := gs, deps := natList d " ", libs := natList l " ", whole := natList w " " })
+  | _ => none
+
+def tgtOf (f : String) : Option Tgt :=
+  match f.splitOn ":" with
+  | [k, p, s, d, l, w] =>
+    match kindOf k.trimAscii.toString, gensOf s with
+    | some kd, some gs => some { kind := kd, priv := decodeStr p, sources := gs, deps := natList d " ",
+                                 linkWith := natList l " ", linkWhole := natList w " " }
+    | _, _ => none
+  | _ => none
+
+def recs {α : Type} (f : String) (one : String → Option α) : Option (List α) :=
+  if f.trimAscii.isEmpty then some [] else (f.splitOn ";").mapM one
+
+def cmd (ds ts : String) : String :=
+  match recs ds depOf, recs ts tgtOf with
+  | some dl, some tl =>
+    let tb : Table := { deps := dl, tgts := tl }
+    let per := (List.range tl.length).map (fun t => encodeStrList (orderOnly tb t))
+    s!"OK|wf={boolStr (wfB tb)}|" ++ ";".intercalate per
+  | _, _ => "ERR:Table"
+
+end HD
+
 def handle (cmd : String) (fs : List String) : String :=
   match cmd, fs with
+  | "hdeps", [ds, ts] => HD.cmd ds ts
   | "sched", [t, inc, scheds] => schedCmd t inc scheds
   | "valid", [edges, s] =>
     let g := absGraph edges
